@@ -86,9 +86,19 @@ def heap_shapes(isa, tier):
     return sh
 
 
-def codegen_check(pid, isa):
+def codegen_check(pid, isa, kani=None, kani_s=0.0):
     tier = fw.tier()
     chk = fw.Check(pid, 'proof')
+    kani_samples = []
+    for h, r in (kani or []):
+        if r is None or r['result'] is None:
+            chk.inconc(f"kani harness {h} did not run to a verdict")
+        elif r['result'] != 'SUCCESSFUL':
+            chk.report(f"kani/{h}", f"{h}: {r['failed_checks']} (literal synthesis: some 64-bit literal is not loaded exactly)", {'kani': r})
+        elif r['covers'] is not None and r['covers'][0] != r['covers'][1]:
+            chk.report(f"kani/{h}/vacuous", f"{h}: cover goals unsatisfied", {'kani': r})
+        else:
+            kani_samples.append({'harness': h, 'result': r['result'], 'covers': r['covers']})
     N = 5 if tier == 'quick' else 6
     to = 120000 if tier == 'quick' else 1800000
     items = items_for(isa, functional_shapes(isa, tier), 4, None, to)
@@ -98,6 +108,11 @@ def codegen_check(pid, isa):
     run_items(chk, items,
               rule="shapes enumerated exhaustively inside the stated windows/arity/kind bounds (gen/shapes.py); every shape is a "
                    "distinct emitted code fragment; per shape the solver decides fault-freedom, Spec and I' for all data")
+    if kani is not None:
+        chk.coverage['kani'] = {'harnesses': kani_samples, 'seconds': round(kani_s, 1),
+                                'claim': 'all 2^64 literals x every register / every spill slot: value exact, operands in range'}
+        chk.coverage['obligations'] += len(kani)
+        chk.coverage['discharged'] += len(kani_samples)
     return chk.finish()
 
 
@@ -106,7 +121,14 @@ def c06():
 
 
 def c07():
-    return codegen_check('C07', 'aarch64')
+    # every 64-bit literal: Kani harnesses over the real load_immediate (register and any spill slot)
+    import asmform
+    kres, kout, ksecs = asmform.run_kani(1500)
+    extra = []
+    for h in ('harness::a64::load_immediate_register_all_literals', 'harness::a64::load_immediate_spill_all_literals'):
+        r = kres.get(h)
+        extra.append((h, r))
+    return codegen_check('C07', 'aarch64', kani=extra, kani_s=ksecs)
 
 
 def c08():
